@@ -1033,7 +1033,8 @@ pub fn div_nx1(limbs: &mut [u64], divisor: u64) -> /*+*/(r:/*-*/ u64/*+*/)
         assert(remainder as int == (last as int) / c);
         lemma_shl_or_shr_u64(0, last, shift);
         assert(lvr(l0, n, n) == 0);
-        assert(0 * (divisor as int) == 0);
+        assert(0 * (divisor as int) == 0) by(nonlinear_arith);
+        assert(lvr(l0, n, n) * s2 == 0) by(nonlinear_arith) requires lvr(l0, n, n) == 0;
         assert(vsh(l0, n, n, s2, c) == remainder as int);
         assert(s2 <= divisor as int) by(nonlinear_arith) requires divisor as int == d0 * s2, d0 >= 1, s2 >= 1;
     }/*-*/
@@ -1151,7 +1152,8 @@ pub fn div_nx2(limbs: &mut [u64], divisor: u128) -> /*+*/(r:/*-*/ u128/*+*/)
         assert(remainder as int == (last as int) / c);
         lemma_shl_or_shr_u64(0, last, shift);
         assert(lvr(l0, n, n) == 0);
-        assert(0 * (divisor as int) == 0);
+        assert(0 * (divisor as int) == 0) by(nonlinear_arith);
+        assert(lvr(l0, n, n) * s2 == 0) by(nonlinear_arith) requires lvr(l0, n, n) == 0;
         assert(vsh(l0, n, n, s2, c) == remainder as int);
         assert(s2 <= divisor as int) by(nonlinear_arith) requires divisor as int == d0 * s2, d0 >= 1, s2 >= 1;
     }/*-*/
